@@ -280,19 +280,24 @@ def file_number(rep, prog):
     why = "mesh_writer::write not called exactly once"
     if len(wr) == 1 and nb:
         g = fi.guards(wr[0])
-        cond_ok = any(pol and strip(c).get("k") == "BinaryOperator" and strip(c).get("op") == "!=" and {render(strip(c)["c"][0]).split("#")[0], render(strip(c)["c"][1]).split("#")[0]} == {nb[0]["name"], "file_number_"} for c, pol in g)
-        assign = [n for n in walk(fn["body"]) if n.get("k") == "BinaryOperator" and n.get("op") == "=" and render(n["c"][0]) == "file_number_"]
-        assign_ok = len(assign) == 1 and render(assign[0]["c"][1]).split("#")[0] == nb[0]["name"] and fi.order[id(assign[0])] < fi.order[id(wr[0])]
+        from ..model import expand_text
+        def _is_change_test(c, pol):
+            c = strip(c)
+            if c.get("k") != "BinaryOperator" or c.get("op") not in ("!=", "=="):
+                return False
+            if (c["op"] == "!=") != bool(pol):
+                return False
+            sides = [strip(c["c"][0]), strip(c["c"][1])]
+            fld = [x for x in sides if render(x).replace("this->", "") == "file_number_"]
+            var = [x for x in sides if x.get("k") == "DeclRefExpr" and x["ref"].get("did") == nb[0]["did"]]
+            return len(fld) == 1 and len(var) == 1
+        cond_ok = any(_is_change_test(c, pol) for c, pol in g)
+        assign = [n for n in walk(fn["body"]) if n.get("k") == "BinaryOperator" and n.get("op") == "=" and render(n["c"][0]).replace("this->", "") == "file_number_"]
+        assign_ok = len(assign) == 1 and strip(assign[0]["c"][1]).get("k") == "DeclRefExpr" and strip(assign[0]["c"][1])["ref"].get("did") == nb[0]["did"] and fi.order[id(assign[0])] < fi.order[id(wr[0])]
         args = call_args(wr[0])
-        paths = []
-        for a in args[:2]:
-            a = strip(a)
-            if a.get("k") == "DeclRefExpr":
-                for d in walk(fn["body"]):
-                    if d.get("k") == "Var" and d.get("did") == a["ref"]["did"]:
-                        paths.append(render(d["init"]))
-        same_nb = len(paths) == 2 and all("std::to_string(file_number_)" in p.replace(" ", "").replace("std::to_string((file_number_))", "std::to_string(file_number_)") or "file_number_" in p for p in paths)
-        kinds = len(paths) == 2 and "cell_data" in paths[0] and "face_data" in paths[1]
+        paths = [expand_text(fn, a) for a in args[:2]]
+        same_nb = len(paths) == 2 and all("std::to_string(file_number_)" in p.replace("std::to_string((file_number_))", "std::to_string(file_number_)") for p in paths)
+        kinds = len(paths) == 2 and "cell_data" in paths[0] and "face_data" in paths[1] and "face_data" not in paths[0] and "cell_data" not in paths[1]
         pop = render(args[2]) == "cell_lst_" if len(args) > 2 else False
         ok = cond_ok and assign_ok and same_nb and kinds and pop
         why = "; ".join(w for w, c in (("not guarded by 'new number != file_number_'", cond_ok), ("file_number_ not updated before writing", assign_ok), ("paths not built from file_number_", same_nb), ("cell_data / face_data paths swapped or missing", kinds), ("does not hand cell_lst_ to the writer", pop)) if not c)
